@@ -152,11 +152,19 @@ def native_check(contract, args, kwargs=None, only=None, window=12, with_domain=
             continue    # clause about ghost state: not observable natively
         code, olds = split_old(en)
         vals = []
+        unobservable = False
         for o in olds:
             try:
                 vals.append(copy.deepcopy(eval(o, dict(ns, **loc))))
+            except NameError:
+                # old(...) of an expression over a quantified variable: a two-state clause that the
+                # native evaluator cannot observe (it is decided symbolically only)
+                unobservable = True
+                break
             except Exception as ex:
                 vals.append(ex)
+        if unobservable:
+            continue
         compiled[name] = (code, vals)
     raise_conds = {}
     for exc, cond in contract.raises.items():
